@@ -278,6 +278,43 @@ theorem dec_quoRoundUp_not_ceil_mixed_sign :
   refine ⟨by decide +kernel, ?_⟩
   unfold IsCeil; decide +kernel
 
+/-! ## value semantics of method chains (what "non-mutating forms leave operands untouched" means over time)
+
+The pool machine `Num.Chain` is what the `num` engine replays for every alias chain it runs on live Go objects:
+one call writes ONE variable.  Storage shared between a returned value and an operand would make a later
+in-place update write two, i.e. contradict `chain_step_frame` on the implementation. -/
+open Chain in
+/-- a step leaves every variable but its target untouched (for `…Mut` the target is the receiver) -/
+theorem chain_step_frame {pool pool' : List Int} {op : COp} {dst r : Nat} {a : Int}
+    (h : step pool op dst r a = some pool') (j : Nat) (hj : j ≠ target op dst r) : pool'[j]? = pool[j]? := by
+  unfold step at h
+  split at h
+  · split at h
+    · split at h
+      · cases h; exact List.getElem?_set_ne (Ne.symm hj)
+      · cases h
+    · cases h
+  · cases h
+
+open Chain in
+/-- a step never adds or removes a variable -/
+theorem chain_step_length {pool pool' : List Int} {op : COp} {dst r : Nat} {a : Int}
+    (h : step pool op dst r a = some pool') : pool'.length = pool.length := by
+  unfold step at h
+  split at h
+  · split at h
+    · split at h
+      · cases h; exact List.length_set
+      · cases h
+    · cases h
+  · cases h
+
+open Chain in
+/-- a non-mutating call followed by an in-place update of its RESULT leaves the operands as they were:
+`r := a.Mul(b); r.AddMut(c)` with `a` zero keeps `a = 0` (variables: a b c r). -/
+example : run [0, 5 * P36, 7 * P36, 1] [(.mul, 3, 0, 1), (.addMut, 3, 3, 2)] 0 = .inl [0, 5 * P36, 7 * P36, 7 * P36] := by
+  decide +kernel
+
 /-! ## non-vacuity: concrete instances meeting the hypotheses (negative tie, 10^k neighbour, range edge) -/
 example : BigDec.mul (-(5 * 10 ^ 35)) 1 = some 0 := by decide +kernel                       -- -0.5 ulp tie → even 0
 example : BigDec.mul (-(15 * 10 ^ 35)) 1 = some (-2) := by decide +kernel                   -- -1.5 ulp tie → even -2
